@@ -1,6 +1,7 @@
 import PdfModel.Lemmas.Offsets
 import PdfModel.Lemmas.OffLex
 import PdfModel.Lemmas.OffsetsFuel
+import PdfModel.Lemmas.SuffixConcrete
 
 /-!
 # C17 — bytes before the header do not change what is read
@@ -257,6 +258,95 @@ theorem prefix_changes_nothing (P : Parsers V T) (p f : Bytes) (fuel s : Nat) (t
   | panic => simp [hs] at hopen
   | oof => simp [hs] at hopen
 
+/-! ## The parser parameters discharged against the lexer / parser models
+
+The theorems above hold for *whatever* the token-level parsers compute, under one modelling assumption: a
+parser that is handed `Lexer::with_offset(read(pos ..), pos)` is a function of the suffix and uses the
+offset only to report `file_range`s. For the concrete models `Model/Lexer.lean`, `Model/StrLexer.lean`,
+`Model/Parser.lean` this is now a theorem (`file_offset_only_moves_ranges`), together with the shift lemmas
+for lexing / parsing `p ++ f` from `p.length + k` (`Lemmas/Shift*.lean`). -/
+
+section Concrete
+open PdfLex PdfShift
+
+variable {R : Type}
+
+/-- **Shift lemma, lexer.** `next_word` on `p ++ b` from `p.size + k` is `next_word` on `b` from `k`, the
+    lexeme's positions `p.size` further on (also `next`, `peek`, `next_expect`, `next_stream`, `set_pos`,
+    `offset_pos`, `read_n`: `Lemmas/ShiftLexer.lean`). -/
+theorem next_word_prefix_shift (p b : Buf) (k : Nat) :
+    nextWord (p ++ b) (p.size + k) = omap (sh2 p.size) (nextWord b k) :=
+  nextWord_shift p b k
+
+/-- **Shift lemma, string lexers.** Literal and hexadecimal strings read from `p.size + k` in `p ++ b` are the
+    strings read from `k` in `b`; the cursor behind them is `p.size` further on. -/
+theorem string_lexers_prefix_shift (p b : Buf) (fuel k : Nat) (nested : Int) (acc : List UInt8) :
+    collectString (p ++ b) fuel (p.size + k) nested acc = omap (shL p.size) (collectString b fuel k nested acc) ∧
+    collectHex (p ++ b) (p.size + k) fuel (p.size + k) acc = omap (shL p.size) (collectHex b k fuel k acc) :=
+  ⟨collectString_shift p b fuel k nested acc, collectHex_shift p b k fuel k acc⟩
+
+/-- **Shift lemma, parser.** `parse_with_lexer_ctx` on `p ++ b` from `p.size + k` with lexer offset `o` returns
+    the value that it returns on `b` from `k` with lexer offset `o + p.size` — the same value, stream ranges
+    included — and rests `p.size` further on; for every buffer content, conformant or not (errors, panics
+    and fuel exhaustion correspond). Buffers below 2 GiB, resolver lengths are `i32`s. -/
+theorem parse_prefix_shift (env : Env R) (p b : Buf) (hsz : (p ++ b).size ≤ 2147483647) (hlen : LenBounded env)
+    (fuel k : Nat) (ctx : Option (Nat × Nat)) (flags depth : Nat) :
+    parseCtx env (p ++ b) fuel (p.size + k) ctx flags depth
+      = omap (shV p.size) (parseCtx (env.shiftOffset p.size) b fuel k ctx flags depth) :=
+  parseCtx_shift env p b hsz hlen fuel k ctx flags depth
+
+/-- the same for `parse_indirect_object` -/
+theorem parse_indirect_prefix_shift (env : Env R) (p b : Buf) (hsz : (p ++ b).size ≤ 2147483647)
+    (hlen : LenBounded env) (fuel k flags : Nat) :
+    parseIndirectObject env (p ++ b) fuel (p.size + k) flags
+      = omap (shI p.size) (parseIndirectObject (env.shiftOffset p.size) b fuel k flags) :=
+  parseIndirectObject_shift env p b hsz hlen fuel k flags
+
+/-- **The lexer's file offset only moves the reported ranges**: the modelling assumption of
+    `Model/Offsets.lean`, proved for the parser model. Same buffer, offset `o + k` instead of `o`: the same
+    outcome, every `file_range` inside the value `k` further on. No hypothesis. -/
+theorem file_offset_only_moves_ranges (env : Env R) (k : Nat) (buf : Buf) (fuel pos flags : Nat) :
+    parseIndirectObject (env.shiftOffset k) buf fuel pos flags
+      = omap (mapI k) (parseIndirectObject env buf fuel pos flags) :=
+  parseIndirectObject_offset env k buf fuel pos flags
+
+/-- **`locate_xref_offset_prefix`, concrete lexer.** -/
+theorem locate_xref_offset_prefix_concrete (p f : Bytes) (k : Nat)
+    (hk : findLast startxrefKw (f.take (f.length - 1)) = some k) :
+    locateXrefC (p ++ f) = locateXrefC f :=
+  locateXrefC_append p f k hk
+
+/-- **Reading an object, end to end, no parser parameter.** `resolve_ref`'s direct branch in its literal
+    call shape — `start.checked_add(offset)`, `read(pos ..)`, `Lexer::with_offset(.., pos)`,
+    `parse_indirect_object` of `Model/Parser.lean` — gives for `p ++ f` (header at `p.length + s`) the value
+    it gives for `f` (header at `s`), stream ranges `p.length` further on; for every content at the offset,
+    every flag set, every fuel. -/
+theorem read_object_prefix_concrete (env : Env R) (fuel : Nat) (p f : Bytes) (s off flags : Nat) (hfit : Fits p f) :
+    readObjectAt env fuel (p ++ f) (p.length + s) off flags
+      = omap (shiftR p.length) (readObjectAt env fuel f s off flags) :=
+  readObjectAt_prefix env fuel p f s off flags hfit
+
+/-- **`prefix_changes_nothing` with the concrete parsers.** Objects, members of object streams, `/Length`
+    integers are read by the parser model; what stays a parameter is third-party or not modelled at byte
+    level (`f32::from_str`, the filter chain `dec`, the cross-reference section reader `X`, the scan item
+    loop `S`; the resolver inside `parse_stream_object` is `env.resolveLen`). -/
+theorem prefix_changes_nothing_concrete (env : Env R) (pfuel : Nat) (dec : Dict R → Bytes → Out Bytes)
+    (X : Bytes → Out (List Xref.Sub × Dict R)) (S : Bytes → List (Out (Obj (Prim R))))
+    (p f : Bytes) (fuel s : Nat) (t : Xref.Table) (tr : Dict R)
+    (hopen : openFile (concreteP env pfuel dec X S) fuel f = .ok (s, t, tr))
+    (hno : ∀ j, j < p.length → ¬ headerMarker <+: (p ++ f).drop j)
+    (hl : p.length + s + 5 ≤ 1024) (hfit : Fits p f) :
+    openFile (concreteP env pfuel dec X S) fuel (p ++ f) = .ok (p.length + s, t, tr) ∧
+    (∀ fuel' chain flags id,
+      resolveRef (concreteP env pfuel dec X S) (p ++ f) (p.length + s) t fuel' chain flags id
+        = shiftOut p.length (resolveRef (concreteP env pfuel dec X S) f s t fuel' chain flags id)) ∧
+    (∀ o : Obj (Prim R), rawData (p ++ f) (o.shift p.length) = rawData f o) ∧
+    version (p ++ f) (p.length + s) = version f s :=
+  let h := prefix_changes_nothing (concreteP env pfuel dec X S) p f fuel s t tr hopen hno hl hfit
+  ⟨h.1, h.2.1, h.2.2.1, h.2.2.2.1⟩
+
+end Concrete
+
 /-! ## What the code did before the repairs
 
 `scanOld` (D26) read `start .. xref_offset` — an end that is not relative to the header — numbered the
@@ -353,5 +443,29 @@ example : resolveRef toy tinyDoc 0 [.free 0 65535, .raw 9 0, .raw 10 0] 3 [] .an
 example : resolveRef toy (junk ++ tinyDoc) 21 [.free 0 65535, .raw 9 0, .raw 10 0] 3 [] .any 2
     = .ok (.stream 83 32 34) := by decide
 example : rawData (V := Nat) (junk ++ tinyDoc) (.stream 83 32 34) = .ok [79, 78] := by decide
+
+/-! ### non-vacuity of the concrete statements
+
+`%PDF-1.4␊1 0 obj␊<</Length 3/K[1 (a)]>>␊stream␊abc␊endstream␊endobj␊startxref␊9␊%%EOF␊`: the parser model reads
+the stream object at offset 9 with its data at 47..50; behind `junk` (21 bytes) the same value at 68..71; the
+concrete `locate_xref_offset` answers 9 for both. (Kernel evaluation of the models, independent of the theorems.) -/
+
+def cEnv : PdfLex.Env Unit :=
+  { parseReal := fun _ => some (), resolveLen := fun _ _ => .err, allowMissingEndobj := false, decrypt := none, fileOffset := 0 }
+
+def cFile : Bytes :=
+  [37, 80, 68, 70, 45, 49, 46, 52, 10, 49, 32, 48, 32, 111, 98, 106, 10, 60, 60, 47, 76, 101, 110, 103, 116, 104, 32, 51,
+   47, 75, 91, 49, 32, 40, 97, 41, 93, 62, 62, 10, 115, 116, 114, 101, 97, 109, 10, 97, 98, 99, 10, 101, 110, 100, 115,
+   116, 114, 101, 97, 109, 10, 101, 110, 100, 111, 98, 106, 10, 115, 116, 97, 114, 116, 120, 114, 101, 102, 10, 57, 10,
+   37, 37, 69, 79, 70, 10]
+
+def isStreamAt (lo hi : Nat) : Out (PdfLex.Prim Unit) → Bool
+  | .ok (.stream [(_, .int 3), (_, .arr [.int 1, .str [97]])] (.inFile 1 0 a b)) => a == lo && b == hi
+  | _ => false
+
+example : isStreamAt 47 50 (readObjectAt cEnv 40 cFile 0 9 1023) = true := by decide +kernel
+example : isStreamAt 68 71 (readObjectAt cEnv 40 (junk ++ cFile) 21 9 1023) = true := by decide +kernel
+example : locateXrefC cFile = .ok 9 ∧ locateXrefC (junk ++ cFile) = .ok 9 := by decide +kernel
+example : Fits junk cFile := by unfold Fits; decide
 
 end Offsets
